@@ -125,6 +125,11 @@ def elemsOfSteps (steps : List StepObs) : List Nat :=
     | .w _ _ (.rem x) => some x
     | _ => none
 
+/-- what every entity has received after the step, from the step and the messages seen -/
+def JSt.advance (kind : Kind) (n : Nat) (j : JSt) (so : StepObs) : JSt :=
+  if isRound so.step then so.created.foldl (JSt.registerDeliver n) (j.apply kind n so.step)
+  else so.created.foldl (JSt.register n) (j.apply kind n so.step)
+
 /-- judge one step; `j` is the state before it -/
 def judgeStep (kind : Kind) (n nkeys : Nat) (mentioned : List Nat) (j : JSt) (so : StepObs) :
     JSt × Option String :=
@@ -133,8 +138,7 @@ def judgeStep (kind : Kind) (n nkeys : Nat) (mentioned : List Nat) (j : JSt) (so
   -- messages built in this step
   let incomplete := so.created.find? fun mo =>
     (List.range nkeys).any fun k => !((specAt j1.spec k).know mo.src).isEmpty && !mo.keys.contains k
-  let j2 := if isRound so.step then so.created.foldl (JSt.registerDeliver n) j1
-            else so.created.foldl (JSt.register n) j1
+  let j2 := j.advance kind n so
   match incomplete with
   | some mo => (j2, some s!"store/gossip/state-omits-known-key message {mo.id}")
   | none =>
